@@ -4,16 +4,47 @@ use std::io::{self, BufRead, Write};
 use std::panic;
 
 pub mod util;
+pub mod zoo;
 mod suites;
 
+/// Counting global allocator: C08 ("no heap allocation") reads the counter around library calls.
+pub struct CountingAlloc;
+pub static ALLOCS: std::sync::atomic::AtomicUsize = std::sync::atomic::AtomicUsize::new(0);
+unsafe impl std::alloc::GlobalAlloc for CountingAlloc {
+    unsafe fn alloc(&self, l: std::alloc::Layout) -> *mut u8 {
+        ALLOCS.fetch_add(1, std::sync::atomic::Ordering::Relaxed);
+        std::alloc::System.alloc(l)
+    }
+    unsafe fn dealloc(&self, p: *mut u8, l: std::alloc::Layout) {
+        std::alloc::System.dealloc(p, l)
+    }
+    unsafe fn realloc(&self, p: *mut u8, l: std::alloc::Layout, n: usize) -> *mut u8 {
+        ALLOCS.fetch_add(1, std::sync::atomic::Ordering::Relaxed);
+        std::alloc::System.realloc(p, l, n)
+    }
+}
+#[global_allocator]
+static GLOBAL: CountingAlloc = CountingAlloc;
+pub fn allocs() -> usize {
+    ALLOCS.load(std::sync::atomic::Ordering::Relaxed)
+}
+
 fn main() {
-    panic::set_hook(Box::new(|info| {
+    if std::env::var("EG_BT").is_err() { panic::set_hook(Box::new(|info| {
         let loc = info
             .location()
             .map(|l| format!("{}:{}", l.file(), l.line()))
             .unwrap_or_default();
+        let msg = if let Some(s) = info.payload().downcast_ref::<&str>() {
+            s.to_string()
+        } else if let Some(s) = info.payload().downcast_ref::<String>() {
+            s.clone()
+        } else {
+            String::new()
+        };
         util::LAST_PANIC.with(|p| *p.borrow_mut() = loc);
-    }));
+        util::LAST_PANIC_MSG.with(|p| *p.borrow_mut() = msg);
+    })); }
     let stdin = io::stdin();
     let stdout = io::stdout();
     let mut out = io::BufWriter::new(stdout.lock());
